@@ -129,12 +129,15 @@ theorem nil_false_of_mem {s : St} (hc : CInv s) {x : Nat} (h : x ∈ s.keys) : s
 theorem cinv_idle {s s' : St} {i p : Nat} {prog held} (hs : SInv s) (hc : CInv s) (ht : s.tasks[i]? = some ⟨.idle, prog, held⟩)
     (hstep : stepTask s i ⟨.idle, prog, held⟩ p = some s') : CInv s' := by
   simp only [stepTask] at hstep
+  split at hstep
+  · simp only [Option.some.injEq] at hstep; subst hstep
+    exact CInv_frame hs hc ht rfl (Or.inl rfl) rfl rfl rfl (A_same rfl) (fun e he => Or.inl he) rfl
   cases prog with
   | nil =>
     simp at hstep; subst hstep
     exact CInv_frame hs hc ht rfl (Or.inl rfl) rfl rfl rfl (A_same rfl) (fun e he => Or.inl he) rfl
   | cons op rest =>
-    cases op <;> cases held <;> simp at hstep <;> subst hstep <;>
+    cases op <;> cases held <;> simp at hstep <;> (try split at hstep) <;> (try simp at hstep) <;> subst hstep <;>
       exact CInv_frame hs hc ht rfl (Or.inl rfl) rfl rfl rfl (A_same rfl) (fun e he => Or.inl he) rfl
 
 theorem cinv_wClose {s s' : St} {i p : Nat} {c prog held} (hs : SInv s) (hc : CInv s) (ht : s.tasks[i]? = some ⟨.wClose c, prog, held⟩)
